@@ -388,6 +388,7 @@ def run(ctx):
         hostile_names_through_bus(ctx)
         wrong_typed_header_fields(ctx)
         deep_header_values(ctx)
+        nested_failure_probe(ctx)
         first_use_poisoning(ctx, rng)
         history_independence(ctx, rng)
         scaling_probe(ctx)
@@ -948,6 +949,49 @@ def deep_header_values(ctx):
                            w, case)
                 return
     ctx.note('deep_header_values', {'steps_at_depth_1': base_steps})
+
+
+def nested_failure_probe(ctx):
+    """A message that fails to decode at its innermost value, beneath d levels of nested containers (an a{sv} inside an
+    a{sv} ..., a (v) inside a (v) ...): rejecting it costs work in proportion to its length (which grows with d), whatever
+    d is - a decoder that tries again on failure at every level would double the work with each level."""
+    shapes = {
+        'vardict': ('a{sv}', lambda inner: [('k', inner)], lambda: Variant('u', 7)),
+        'struct-variant': ('(v)', lambda inner: [inner], lambda: Variant('u', 7)),
+        'array-of-variant': ('av', lambda inner: [inner], lambda: Variant('u', 7)),
+    }
+    for name, (sig, wrap, leaf) in shapes.items():
+        for little in (True, False):
+            base = None
+            for depth in (2, 6, 10, 14, 18, 24):
+                val = leaf()
+                for _ in range(depth):
+                    val = Variant(sig, wrap(val))
+                raw = RM.build(RM.SIGNAL, 9, {'path': '/a', 'member': 'M', 'interface': 'a.b'}, sig, [val.value], little)
+                for damage in ('truncated', 'lying-length'):
+                    if damage == 'truncated':
+                        bad = bytearray(raw[:-2])
+                        blen = struct.unpack_from('<I' if little else '>I', raw, 4)[0] - 2
+                        struct.pack_into('<I' if little else '>I', bad, 4, blen)
+                    else:
+                        bad = bytearray(raw)
+                        bad[-4:] = b'\xff\xff\xff\x7f' if little else b'\x7f\xff\xff\xff'
+                    out, val_, n = METER.run(6000000, MSG.parseMessage, bytes(bad), [])
+                    ctx.count('evaluations')
+                    ctx.count('nested_failure_probes')
+                    if base is None:
+                        base = (n, len(bad))
+                    per_byte0 = base[0] / float(base[1])
+                    case = {'kind': 'nested-failure', 'shape': name, 'depth': depth, 'damage': damage, 'little': little}
+                    w = {'shape': name, 'depth': depth, 'bytes': len(bad), 'steps': n, 'steps_at_depth_2': base[0],
+                         'bytes_at_depth_2': base[1], 'outcome': out}
+                    # the constant may grow with the nesting depth (see section 4: quadratic in depth), not with 2**depth
+                    if out == 'budget' or n > 12 * per_byte0 * len(bad) * (1 + depth * depth / 16.0) + 20000:
+                        ctx.report('retry-on-failure-blowup', 'rejecting a %d-byte message damaged beneath %d nested %s levels '
+                                   'took %s steps (%d steps for %d bytes at 2 levels)' % (
+                                       len(bad), depth, name, 'more than 6000000' if out == 'budget' else n, base[0], base[1]),
+                                   w, case)
+                        return
 
 
 def typed_corpus():
